@@ -21,7 +21,7 @@ for pid, modname in sorted(core.PROPS.items()):
         "evidence_file": "evidence/%s.json" % pid,
         "replay_cmd_template": "./check %s --replay {path}" % pid,
         "engine": "vlib",
-        "level_claimed": {"category": mod.LEVEL, "text": note.get("level_text", mod.RULE), "design_ref": "DESIGN.md section 2, " + pid},
+        "level_claimed": {"category": mod.LEVEL, "text": note.get("level_text", mod.RULE), "design_ref": "DESIGN.md section 2 (design) and 6.2 (as built), " + pid},
         "level_note": note.get("level_note", "; ".join(mod.ASSUMPTIONS)),
         "technique": mod.TECHNIQUE,
     })
